@@ -44,7 +44,7 @@ def small : Tok → Option Nat
 /-- the checks of ob_params -/
 def paramsOk (chunk pre stats : Nat) : Bool :=
   (chunk == 0 || (48 ≤ chunk && chunk ≤ 65536)) && (if chunk == 0 then pre ≤ 2048 else pre + 16 ≤ chunk) &&
-  stats ≤ 1 && !(stats == 1 && chunk == 0)
+  stats ≤ 1
 
 /-- ob_open … ob_close: the pieces, then obstack_1grow (ob, 0); print sum, object without the terminator,
     [chunks allocated, chunks freed], stores. -/
@@ -53,10 +53,11 @@ def finish (chunk pre stats : Nat) (ps : List Piece) : List Tok :=
   let o := grow o [Char.ofNat 0]
   let text := o.text
   let hasFormat := ps.any (fun p => p.calls.any (fun c => match c with | .format _ => true | _ => false))
-  [natTok sum, strT text.dropLast] ++
+  [natTok sum] ++
   (if o.initialised then [] else [.err "model-uninitialised"]) ++
   (if o.stale = 0 ∧ o.ok then [] else [.err "model-stale"]) ++
   (if sum = (ps.map (·.retval)).sum then [] else [.err "model-count"]) ++
+  [strT text.dropLast] ++
   (if stats = 1 then (if hasFormat then [.err "model-stats-with-libc-piece"] else [natTok (o.cur + 1), natTok o.freed.length]) else []) ++
   ps.flatMap (·.stores)
 
